@@ -22,6 +22,7 @@
 package c12
 
 import (
+	"sync"
 	"fmt"
 	"math"
 	"sort"
@@ -115,6 +116,14 @@ func scope(thorough bool) (maxLen, alpha int) {
 	return 7, 4
 }
 
+// short renders a slice, abbreviating long ones.
+func short[T any](v []T) string {
+	if len(v) <= 24 {
+		return fmt.Sprint(v)
+	}
+	return fmt.Sprintf("%v ... %v (%d elements)", v[:8], v[len(v)-4:], len(v))
+}
+
 func enumSlice(s pbt.Src, thorough bool) []int {
 	maxLen, alpha := scope(thorough)
 	return pbt.Seq(s, 0, maxLen, func(s pbt.Src) int { return s.Intn(alpha) })
@@ -127,8 +136,27 @@ func randBounds(thorough bool) (maxLen, alpha int) {
 	return 40, 12
 }
 
+// bigSizes: lengths around the thresholds at which an implementation might switch strategy
+// (parallel segments, block copies, recursion limits).
+var bigSizes = []int{255, 256, 257, 1000, 1023, 1024, 1025, 2047, 2048, 2049, 4095, 4096, 4097, 5000, 8192, 10000, 16384, 20000}
+
+// bigSlice: n values a*i+b mod alpha (cheap to draw, and the three parameters shrink).
+func bigSlice(s pbt.Src) []int {
+	n := bigSizes[s.Intn(len(bigSizes))]
+	a, b, alpha := 1+s.Intn(7), s.Intn(7), 2+s.Intn(11)
+	out := make([]int, n)
+	for i := range out {
+		out[i] = (a*i + b) % alpha
+	}
+	return out
+}
+
 func randSlice(s pbt.Src, thorough bool) []int {
 	maxLen, alpha := randBounds(thorough)
+	// one random slice in twelve is long (hundreds to thousands of elements)
+	if s.Intn(12) == 0 {
+		return bigSlice(s)
+	}
 	// half of the random slices stay on a narrow alphabet (many repeated values)
 	if pbt.Bool(s) {
 		alpha = 3
@@ -748,6 +776,7 @@ const (
 	nodeLeaf = iota // a bare T
 	nodeInts        // a []T
 	nodeList        // a []any of nodes
+	nodeWin         // a []T that is the window base[Off:Off+Len] of ONE array shared by all window nodes of the case (its capacity reaches to the end of that array)
 )
 
 // Node is a JSON-able description of a nesting.
@@ -756,22 +785,51 @@ type Node struct {
 	V    int    `json:"v,omitempty"`
 	Ints []int  `json:"ints,omitempty"`
 	Kids []Node `json:"kids,omitempty"`
+	Off  int    `json:"off,omitempty"`
+	Len  int    `json:"len,omitempty"`
 }
 
 type FlatCase struct {
 	T Node `json:"t"`
 }
 
-func (n Node) build() any {
+// winBase is the length of the array the window nodes of a case share; element i holds winVal(i).
+const winBase = 8
+
+func winVal(i int) int { return 500 + i }
+
+func (n Node) win() (off, ln int) {
+	off = mod(n.Off, winBase+1)
+	ln = mod(n.Len, winBase-off+1)
+	return
+}
+
+func (n Node) build() any { return n.buildOn(nil) }
+
+// buildOn: base is the shared array of the window nodes (allocated on first use).
+func (n Node) buildOn(base *[]int) any {
+	if base == nil {
+		var b []int
+		base = &b
+	}
 	switch n.Kind {
 	case nodeLeaf:
 		return n.V
 	case nodeInts:
 		return clone(n.Ints)
+	case nodeWin:
+		if *base == nil {
+			*base = make([]int, winBase)
+			for i := range *base {
+				(*base)[i] = winVal(i)
+			}
+		}
+		off, ln := n.win()
+		return (*base)[off : off+ln]
 	default:
 		out := make([]any, len(n.Kids))
 		for i, k := range n.Kids {
-			out[i] = k.build()
+			out[i] = k.buildOn(base)
 		}
 		return out
 	}
@@ -783,6 +841,12 @@ func (n Node) leaves(acc []int) []int {
 		return append(acc, n.V)
 	case nodeInts:
 		return append(acc, n.Ints...)
+	case nodeWin:
+		off, ln := n.win()
+		for i := off; i < off+ln; i++ {
+			acc = append(acc, winVal(i))
+		}
+		return acc
 	default:
 		for _, k := range n.Kids {
 			acc = k.leaves(acc)
@@ -811,6 +875,9 @@ func (n Node) String() string {
 		return fmt.Sprint(n.V)
 	case nodeInts:
 		return fmt.Sprintf("[]int%v", n.Ints)
+	case nodeWin:
+		off, ln := n.win()
+		return fmt.Sprintf("base[%d:%d]", off, off+ln)
 	default:
 		parts := make([]string, len(n.Kids))
 		for i, k := range n.Kids {
@@ -892,10 +959,48 @@ func genNode(s pbt.Src, d, w, maxInts int) Node {
 	}
 }
 
+// genChain: a nesting of depth d (7..48): every level is a list holding the next level between optional leaves.
+func genChain(s pbt.Src, d int) Node {
+	n := Node{Kind: nodeList}
+	if pbt.Bool(s) {
+		n.Kids = append(n.Kids, Node{Kind: nodeLeaf, V: s.Intn(100)})
+	}
+	if d > 1 {
+		n.Kids = append(n.Kids, genChain(s, d-1))
+	} else {
+		n.Kids = append(n.Kids, Node{Kind: nodeInts, Ints: []int{s.Intn(100), s.Intn(100)}})
+	}
+	if pbt.Bool(s) {
+		n.Kids = append(n.Kids, Node{Kind: nodeLeaf, V: s.Intn(100)})
+	}
+	return n
+}
+
+// genWindows: a list (possibly nested one level) whose []int members are windows of one shared array, mixed with bare values.
+func genWindows(s pbt.Src) Node {
+	member := func(s pbt.Src) Node {
+		switch s.Intn(4) {
+		case 0:
+			return Node{Kind: nodeLeaf, V: s.Intn(100)}
+		case 1:
+			return Node{Kind: nodeList, Kids: pbt.Seq(s, 0, 2, func(s pbt.Src) Node { return Node{Kind: nodeWin, Off: s.Intn(winBase + 1), Len: s.Intn(winBase + 1)} })}
+		default:
+			return Node{Kind: nodeWin, Off: s.Intn(winBase + 1), Len: s.Intn(winBase + 1)}
+		}
+	}
+	return Node{Kind: nodeList, Kids: pbt.Seq(s, 1, 5, member)}
+}
+
 func genFlat(s pbt.Src, thorough bool) FlatCase {
 	d, w := 5, 4
 	if thorough {
 		d, w = 6, 5
+	}
+	switch s.Intn(8) {
+	case 0:
+		return FlatCase{T: genChain(s, 7+s.Intn(42))}
+	case 1, 2:
+		return FlatCase{T: genWindows(s)}
 	}
 	// mostly start from a list so that the nesting is not a bare terminal
 	if s.Intn(8) != 0 {
@@ -910,6 +1015,8 @@ func (n Node) fits(d, w, maxInts int) bool {
 		return true
 	case nodeInts:
 		return len(n.Ints) <= maxInts
+	case nodeWin:
+		return false
 	default:
 		if d == 0 || len(n.Kids) > w {
 			return false
@@ -959,6 +1066,9 @@ func (n Node) hasEmpty() bool {
 		return false
 	case nodeInts:
 		return len(n.Ints) == 0
+	case nodeWin:
+		_, ln := n.win()
+		return ln == 0
 	default:
 		if len(n.Kids) == 0 {
 			return true
@@ -985,6 +1095,12 @@ func propFlat(c FlatCase, r *pbt.R) error {
 	if len(want) >= 2 && d >= 1 {
 		r.NonTrivial()
 		r.Label(fmt.Sprintf("depth %d", min(d, 4)))
+		if d >= 7 {
+			r.Label("depth >= 7")
+		}
+		if c.T.count(nodeWin) >= 2 {
+			r.Label(">= 2 []int members that are windows of one array")
+		}
 		r.NonTrivialIf(c.T.count(nodeInts) > 0 && c.T.count(nodeLeaf) > 0, "mixes bare values and []int")
 		r.NonTrivialIf(c.T.hasEmpty(), "contains an empty list")
 	}
@@ -1072,6 +1188,99 @@ func propMerge(c MergeCase, r *pbt.R) error {
 	}
 	if len(parts) == 1 {
 		r.Label("no variadic argument")
+	}
+	return nil
+}
+
+// Merge of arguments that share storage: every argument is a window base[off:off+len] of ONE array of
+// Base elements, so the first argument has spare capacity that later arguments may live in, and arguments may overlap.
+type MergeWinCase struct {
+	Base int      `json:"base"`
+	Wins [][2]int `json:"wins"` // (off, len), normalised into the array at execution time
+}
+
+func winOf(base int, w [2]int) (off, ln int) {
+	off = mod(w[0], base+1)
+	ln = mod(w[1], base-off+1)
+	return
+}
+
+func enumMergeWin(s pbt.Src, thorough bool) MergeWinCase {
+	maxBase, maxWins := 4, 3
+	if thorough {
+		maxBase, maxWins = 5, 4
+	}
+	c := MergeWinCase{Base: pbt.Range(s, 1, maxBase)}
+	// all (off, len) with off+len <= Base: enumerated injectively
+	var all [][2]int
+	for off := 0; off <= c.Base; off++ {
+		for ln := 0; off+ln <= c.Base; ln++ {
+			all = append(all, [2]int{off, ln})
+		}
+	}
+	c.Wins = pbt.Seq(s, 1, maxWins, func(s pbt.Src) [2]int { return all[s.Intn(len(all))] })
+	return c
+}
+
+func genMergeWin(s pbt.Src, thorough bool) MergeWinCase {
+	c := MergeWinCase{Base: pbt.Range(s, 1, 40)}
+	c.Wins = pbt.Seq(s, 1, 8, func(s pbt.Src) [2]int { return [2]int{s.Intn(c.Base + 1), s.Intn(c.Base + 1)} })
+	return c
+}
+
+func mergeWinOutOfEnum(c MergeWinCase, thorough bool) bool {
+	maxBase, maxWins := 4, 3
+	if thorough {
+		maxBase, maxWins = 5, 4
+	}
+	return c.Base > maxBase || len(c.Wins) > maxWins
+}
+
+func propMergeWin(c MergeWinCase, r *pbt.R) error {
+	if c.Base < 1 || c.Base > 4096 || len(c.Wins) == 0 {
+		return nil
+	}
+	base := make([]el, c.Base)
+	for i := range base {
+		base[i] = el{I: i, V: i % 5}
+	}
+	args := make([][]el, len(c.Wins))
+	var want []el
+	desc := ""
+	overlap, inSpare := false, false
+	off0, ln0 := winOf(c.Base, c.Wins[0])
+	for i, w := range c.Wins {
+		off, ln := winOf(c.Base, w)
+		args[i] = base[off : off+ln] // capacity reaches to the end of the array
+		want = append(want, base[off:off+ln]...)
+		desc += fmt.Sprintf(" base[%d:%d]", off, off+ln)
+		if i > 0 && ln > 0 {
+			if off+ln > off0+ln0 && off < c.Base {
+				inSpare = inSpare || off+ln > off0+ln0
+			}
+			for j := 0; j < i; j++ {
+				o2, l2 := winOf(c.Base, c.Wins[j])
+				if l2 > 0 && off < o2+l2 && o2 < off+ln {
+					overlap = true
+				}
+			}
+		}
+	}
+	want = clone(want)
+	got := gogu.Merge(args[0], args[1:]...)
+	if !same(got, want) {
+		return fmt.Errorf("Merge(%s ) over one array of %d elements (value@index) = %s, want the concatenation %s of what the arguments held when it was called", desc, c.Base, short(got), short(want))
+	}
+	nonEmpty := 0
+	for _, a := range args {
+		if len(a) > 0 {
+			nonEmpty++
+		}
+	}
+	if nonEmpty >= 2 {
+		r.NonTrivial()
+		r.NonTrivialIf(inSpare, "a later argument lies (partly) in the spare capacity of the first")
+		r.NonTrivialIf(overlap, "overlapping arguments")
 	}
 	return nil
 }
@@ -1165,10 +1374,13 @@ func propIter(c SliceCase, r *pbt.R) error {
 	n := len(in)
 	limit := 4*n + 8 // bound on logged calls, so that a runaway iteration cannot exhaust memory
 	var log []int
+	var logMu sync.Mutex // an implementation that calls back from several goroutines must not corrupt the harness
 	note := func(e el) {
+		logMu.Lock()
 		if len(log) < limit {
 			log = append(log, e.I)
 		}
+		logMu.Unlock()
 	}
 	up := make([]int, n)
 	for i := range up {
@@ -1177,7 +1389,11 @@ func propIter(c SliceCase, r *pbt.R) error {
 	down := reversed(up)
 	visits := func(name string, want []int) error {
 		if !same(log, want) {
-			return fmt.Errorf("%s over %v visited the indices %v, want %v (every element once)", name, in, log, want)
+			at := 0
+			for at < len(log) && at < len(want) && log[at] == want[at] {
+				at++
+			}
+			return fmt.Errorf("%s over %s visited the indices %s, want %s (every element once, in order; first difference at visit %d)", name, short(in), short(log), short(want), at)
 		}
 		return nil
 	}
@@ -1305,6 +1521,13 @@ func TestProp(t *testing.T) {
 				"random: up to 8 (12) arguments of length up to 12 (30). Non-trivial = at least two non-empty arguments." + dist,
 			Enum: enumMerge, Gen: genMerge, Prop: propMerge, OutOfEnum: mergeOutOfEnum,
 			RapidQuick: 1200, RapidThorough: 30000,
+		},
+		&pbt.Check[MergeWinCase]{
+			Name: "merge-windows",
+			Rule: "Merge(a0, a1...) where every argument is a window base[off:off+len] of ONE array (so the first argument has spare capacity in which later arguments may live, and arguments may overlap): the result must be the concatenation of what the arguments held at the call. " +
+				"Enumerated: arrays of 1..4 (thorough 5) elements x 1..3 (4) windows, every (off,len); random: arrays up to 40 elements, up to 8 windows. Non-trivial = >= 2 non-empty arguments.",
+			Enum: enumMergeWin, Gen: genMergeWin, Prop: propMergeWin, OutOfEnum: mergeWinOutOfEnum,
+			RapidQuick: 600, RapidThorough: 8000,
 		},
 		&pbt.Check[SliceCase]{
 			Name: "perm",
